@@ -55,6 +55,7 @@ def main():
     ap.add_argument("--no-exclude", action="store_true")
     ap.add_argument("--only-excluded", action="store_true")
     ap.add_argument("--genx", nargs=2, type=int, default=None)
+    ap.add_argument("--geny", nargs=2, type=int, default=None)
     ap.add_argument("--sub", action="store_true",
                     help="soak the fixed sub-sample #s1 of each workload")
     ap.add_argument("--nproc", type=int, default=None)
@@ -86,6 +87,12 @@ def main():
             if a.only_excluded != bool(ex) and not a.no_exclude:
                 continue
             wids.append(f"genx:{i}")
+    if a.geny:
+        for i in range(a.geny[0], a.geny[1]):
+            ex = gen_defs.excluded_by(gen_defs.geny_def(i))
+            if a.only_excluded != bool(ex) and not a.no_exclude:
+                continue
+            wids.append(f"geny:{i}")
     if a.sub:
         wids = [w + "#s1" for w in wids]
     units = [grid.learn_unit(w, s) for w in wids for s in sids]
